@@ -38,7 +38,12 @@ class VFd(object):
         k = H.recv_script.pop(0) if H.recv_script else 1
         if k is None: raise socket.error("scripted recv failure")
         return b"x" * k
+    def __bool__(self): return self.id != 0          # descriptor 0 is falsy, like the int 0: nothing may test a descriptor's truth value
     def __repr__(self): return "<fd %d>" % self.id
+
+
+class BadOp(object):
+    """made a BlockingOperation subclass in Run.badop(): its execute() raises - the task is descheduled after its step"""
 
 
 class Run(object):
@@ -62,6 +67,13 @@ class Run(object):
         self.queued_run = 0         # a task's generator was resumed while the task was (still) in the ready deque
         self.draws = list(case.get("draws", ()))
         self.conv = case.get("conv", 0)
+        self.pending = {}           # tid -> deadline (1/8 s) of the timed wait the task is in, as the case asked for it
+        self.timer_due = []         # timer j -> time its next firing is due, None when it has no further firing
+        self.overslept = None       # the clock advanced past a pending deadline
+        self.shared_ops = {}        # id(yield) -> operation object shared by all tasks that execute this yield (aliasing)
+        self.cb_bad = None          # a timer callback was called with the wrong arguments
+        self.cbcancel = []          # [position in trace, timer index]: cancel() called from inside a timer callback
+        self.ntop = len(case["tasks"])
 
     def now(self):
         u = self.clock.now * UNIT
@@ -92,17 +104,36 @@ class Run(object):
         assert to == int(to)
         to = int(to)
         cands = [tab[f.id] for l, tab in zip(lists, self.tabs) for f in l if tab.get(f.id) is not None]
-        has_timer = any(t[4] is not None for t in hub._tasks.values())
+        try: has_timer = any(t[4] is not None for t in hub._tasks.values())
+        except Exception: has_timer = timeout != self.rc.CYCLE_MAXIMUM       # entry shape changed: no timed entry <=> the default timeout
         if cands and min(cands) <= now + to:
             c = min(cands)
+            self.advance(now, c)
             self.clock.now += (c - now) / UNIT
             rd = ready(c)
             return rd[0], rd[1], rd[2]
         if not cands and not has_timer:
             self.sched.quit()                      # quiescent: nothing can ever happen again
             return [], [], []
+        self.advance(now, now + to)
         self.clock.now += timeout
         return [], [], []
+
+    def advance(self, a, b):
+        """the virtual clock is about to go from a to b (everything is idle): no pending deadline may lie strictly before b"""
+        if self.overslept is not None: return
+        for tid, w in self.pending.items():
+            if w < b:
+                self.overslept = "task %d was due at %d, the clock went from %d to %d" % (tid, w, a, b); return
+        for j, w in enumerate(self.timer_due):
+            if w is not None and w < b:
+                self.overslept = "timer %d was due at %d, the clock went from %d to %d" % (j, w, a, b); return
+
+    def badop(self):
+        rc = self.rc
+        class _Bad(rc.BlockingOperation, BadOp):
+            def execute(op, task, scheduler): raise E(9)
+        return _Bad()
 
     # ---- generators
     def canon_recv(self, kind, v):
@@ -133,13 +164,18 @@ class Run(object):
         sec = lambda u: None if u is None else u / UNIT
         rng = random.Random(self.conv * 1000003 + tid * 1009 + self.cur_idx) if self.conv else None
         pick = (lambda n: rng.randrange(n)) if rng else (lambda n: 0)
+        top = tid < self.ntop
+        share = bool(rng) and (self.conv >> 3) & 1 == 1
         if tag == "num":
             if not y[1]: return (0 if pick(2) == 0 else 0.0), None
+            if top and y[1] % 8 == 0 and pick(2): return y[1] // 8, [now + y[1], False]      # an int number of seconds
             return y[1] / UNIT, [now + y[1], False]
         if tag == "block": return False, None
+        if tag == "badop": return self.badop(), None
         if tag == "sleep":
             if y[1] is None: return (rc.Sleep() if pick(2) == 0 else rc.Sleep(None)), None
             d = sec(y[1]); c = pick(5)
+            if y[1] % 8 == 0 and pick(2): d = y[1] // 8
             op = (rc.Sleep(d) if c == 0 else rc.Sleep(timeToWake=d) if c == 1 else rc.Sleep(d, False) if c == 2 else
                   rc.Sleep(self.clock.now + d, True) if c == 3 else rc.Sleep(timeToWake=self.clock.now + d, absoluteTime=True))
             return op, [now + y[1], False]
@@ -150,6 +186,12 @@ class Run(object):
             has = bool(y[1] or y[2] or y[3])
             sets = [self.fdset(l, rng) for l in y[1:4]]
             to = sec(y[4]); c = pick(6)
+            if share and (to is None or c < 3):                       # one Select object for every task that executes this yield
+                op = self.shared_ops.get(id(y))
+                if op is None:
+                    op = self.shared_ops[id(y)] = (rc.Select(*sets) if to is None else rc.Select(*(sets + [to])) if c == 0 else
+                                                   rc.Select(*sets, timeout=to) if c == 1 else rc.Select(*(sets + [to, False])))
+                return op, (None if y[4] is None else [now + y[4], has])
             if to is None:
                 op = (rc.Select(*sets) if c % 3 == 0 else rc.Select(*(sets + [None])) if c % 3 == 1 else rc.Select(*sets, timeout=None))
             elif c == 0: op = rc.Select(*(sets + [to]))
@@ -161,6 +203,10 @@ class Run(object):
             return op, (None if y[4] is None else [now + y[4], has])
         if tag == "recv":
             to = sec(y[2]); c = pick(3)
+            if share:
+                op = self.shared_ops.get(id(y))
+                if op is None: op = self.shared_ops[id(y)] = rc.Recv(self.fd(y[1]), timeout=to)
+                return op, (None if y[2] is None else [now + y[2], True])
             op = (rc.Recv(self.fd(y[1]), timeout=to) if c == 0 else rc.Recv(self.fd(y[1]), 1024 * 8, rc.defaultRecvFlags, to) if c == 1
                   else (rc.Recv(self.fd(y[1])) if to is None else rc.Recv(self.fd(y[1]), bufsize=512, timeout=to)))
             return op, (None if y[2] is None else [now + y[2], True])
@@ -178,6 +224,7 @@ class Run(object):
             return rc.Again(g), None
         if tag == "cancel":
             self.timers[y[1]].cancel()
+            self.timer_due[y[1]] = None
             return 0, None
         raise ValueError(tag)
 
@@ -190,6 +237,7 @@ class Run(object):
             if isinstance(wake, tuple):                             # Send: its last registerSelect + timeout
                 wake = None if wake[1] is None else [self.last_reg[tid] + wake[1], True]
             if any(self.tid(x) == tid for x in self.sched._ready): self.queued_run += 1
+            self.pending.pop(tid, None)
             raw = self.last_ret.pop(tid, recv if (recv is None or recv[0] != "exc") else None)
             self.trace.append(["s", tid, i, self.now(), recv, wake, raw])
             try:
@@ -199,11 +247,15 @@ class Run(object):
                 if y[0] == "raise": raise E(y[1])
                 val, wake = self.build(y, tid)
                 if wake is not None and wake[0] == "send": wake = ("send", wake[1])
+                elif wake is not None and (y[0] != "num" or tid < self.ntop): self.pending[tid] = wake[0]     # `yield n` in a sub-task is its result
             finally:
                 self.running = None
             try:
                 v = yield val
                 recv = self.canon_recv("val", v)
+                if isinstance(v, tuple):                              # the result belongs to the task: scribbling on it must not matter
+                    for l in v:
+                        if isinstance(l, list): l.append(self)
             except Exception as e:
                 recv = self.canon_recv("exc", e)
                 if y[0] == "again" and not y[2]: uncaught = e
@@ -213,6 +265,57 @@ class Run(object):
         if id(t) in self.tid_of: return self.tid_of[id(t)]
         g = getattr(getattr(t, "parent", None), "subtask_func", None)
         return self.tid_of.get(id(g), -1)
+
+    NOT_FALSE = [None, 0, 0.0, "", (), True, 1, []]     # what a callback may return without stopping a self-stoppable timer
+
+    def make_timer(self, j, spec, sched, threaded):
+        """Timer j of the case, constructed in one of the forms the class accepts (positional / keyword arguments, relative /
+        absolute time for a one-shot timer, started at once or later, with callback arguments)"""
+        rc = self.rc; H = self
+        delay, recurring, selfstop, false_at = spec
+        tid = self.ntids; self.ntids += 1
+        st = {"n": 0}
+        c = (self.conv + j) % 6 if self.conv else 0
+        args, kw = ((), {}) if c != 4 else ((tid, "a"), {"k": j})
+        acts = [a for a in self.case.get("cbacts", ()) if a[0] == j]
+        def cb(*a, **k):
+            n = st["n"]; st["n"] += 1
+            if (a, k) != (args, kw) and H.cb_bad is None: H.cb_bad = "timer %d callback called with %r %r" % (j, a, k)
+            H.trace.append(["f", tid, n, H.now()])
+            stop = false_at == n
+            H.timer_due[j] = None if (not recurring or (selfstop and stop)) else H.now() + delay
+            for a_ in acts:
+                if a_[1] == n:                                   # [j, n, "cancel", k]: the callback cancels timer k (possibly itself)
+                    H.timers[a_[3]].cancel(); H.timer_due[a_[3]] = None
+                    H.cbcancel.append([len(H.trace), a_[3]])
+            return False if stop else H.NOT_FALSE[(H.conv + n + j) % len(H.NOT_FALSE)] if H.conv else None
+        d = delay / UNIT
+        if threaded:
+            tm = rc.Timer(d, cb, recurring=recurring, selfStoppable=selfstop, scheduler=sched, started=False, args=args, kw=kw)
+            tm.start(scheduler=sched, fast=True)
+        elif c == 1: tm = rc.Timer(d, cb, False, recurring, (), {}, sched, True, selfstop)
+        elif c == 2 and not recurring: tm = rc.Timer(self.clock.now + d, cb, absoluteTime=True, selfStoppable=selfstop, scheduler=sched)
+        elif c == 3:
+            tm = rc.Timer(d, cb, recurring=recurring, selfStoppable=selfstop, started=False)
+            tm.start(sched)
+        elif c == 5:
+            tm = rc.Timer(timeToWake=d, callback=cb, recurring=recurring, selfStoppable=selfstop, started=False)
+            tm.start(scheduler=sched, fast=True)
+        else: tm = rc.Timer(d, cb, recurring=recurring, selfStoppable=selfstop, scheduler=sched, args=args, kw=kw)
+        self.tid_of[id(tm)] = tid; self.timers.append(tm)
+        self.timer_due.append(self.case["t0"] + delay)
+
+    def make_task(self, tid, prog, T):
+        """a top-level task: a BaseTask subclass whose run() is the body, or (programs that are never thrown an exception
+        into) `Task(target=generator function, args=/kwargs=)`"""
+        rc = self.rc
+        c = (self.conv + tid) % 4 if self.conv else 0
+        if c in (1, 2) and not any(y[0] == "again" for y in prog):
+            t = rc.Task(target=self.body, args=(tid, prog)) if c == 1 else rc.Task(target=self.body, kwargs={"tid": tid, "prog": prog})
+        else:
+            t = T(tid, prog)
+        self.tid_of[id(t)] = tid
+        return t
 
     # ---- run
     def go(self):
@@ -243,19 +346,13 @@ class Run(object):
         tops = []
         for k in case["tasks"]:
             tid = self.ntids; self.ntids += 1
-            t = T(tid, case["progs"][k]); self.tid_of[id(t)] = tid; tops.append(t)
+            t = self.make_task(tid, case["progs"][k], T); tops.append(t)
             pr = case["prios"][tid] if tid < len(case.get("prios", ())) else None
-            t.start(scheduler=sched, priority=(None if pr is None else pr / UNIT))
+            if self.conv and (self.conv + tid) % 5 == 0: t.start(sched, None if pr is None else pr / UNIT, True)    # positional, fast
+            else: t.start(scheduler=sched, priority=(None if pr is None else pr / UNIT))
         self.timers = []
-        for (delay, recurring, selfstop, false_at) in case["timers"]:
-            tid = self.ntids; self.ntids += 1
-            st = {"n": 0}
-            def cb(tid=tid, st=st, false_at=false_at):
-                n = st["n"]; st["n"] += 1
-                H.trace.append(["f", tid, n, H.now()])
-                return False if false_at == n else None
-            tm = rc.Timer(delay / UNIT, cb, recurring=recurring, selfStoppable=selfstop, scheduler=sched)
-            self.tid_of[id(tm)] = tid; self.timers.append(tm)
+        for j, spec in enumerate(case["timers"]):
+            self.make_timer(j, spec, sched, False)
         self.keep += tops
         budget = case["budget"]
         st = {"n": 0, "quit": None}
@@ -282,7 +379,8 @@ class Run(object):
         obs = {"trace": self.trace, "quit": bool(quit_) and run_exc is None, "crashed": run_exc is not None, "cycles": st["n"],
                "now": self.now(), "ready": [tid(t) for t in sched._ready], "incoming": [tid(e[0]) for e in list(hub._incoming.queue)],
                "hub": [tid(t) for t in hub._tasks], "subs": self.subs, "overlap": self.overlap, "run_exc": run_exc,
-               "descheduled": text.count("de-scheduled"), "excs": excs, "queued_run": self.queued_run}
+               "descheduled": text.count("de-scheduled"), "excs": excs, "queued_run": self.queued_run,
+               "overslept": self.overslept, "cb_bad": self.cb_bad, "cbcancel": self.cbcancel}
         # release the pinger pipe now (its __del__ would otherwise close recycled descriptor numbers later)
         p = hub._pinger
         for a in ("_r", "_w"):
@@ -384,20 +482,12 @@ class ThreadedRun(Run):
             tops = []
             for k in case["tasks"]:
                 tid = self.ntids; self.ntids += 1
-                t = T(tid, case["progs"][k]); self.tid_of[id(t)] = tid; tops.append(t)
+                t = self.make_task(tid, case["progs"][k], T); tops.append(t)
                 pr = case["prios"][tid] if tid < len(case.get("prios", ())) else None
                 t.start(scheduler=sched, fast=True, priority=(None if pr is None else pr / UNIT))   # scheduled before the scheduler starts
             self.timers = []
-            for (delay, recurring, selfstop, false_at) in case["timers"]:
-                tid = self.ntids; self.ntids += 1
-                st = {"n": 0}
-                def cb(tid=tid, st=st, false_at=false_at):
-                    n = st["n"]; st["n"] += 1
-                    H.trace.append(["f", tid, n, H.now()])
-                    return False if false_at == n else None
-                tm = rc.Timer(delay / UNIT, cb, recurring=recurring, selfStoppable=selfstop, scheduler=sched, started=False)
-                tm.start(scheduler=sched, fast=True)
-                self.tid_of[id(tm)] = tid; self.timers.append(tm)
+            for j, spec in enumerate(case["timers"]):
+                self.make_timer(j, spec, sched, True)
             self.keep += tops
             budget = case["budget"]
             st = {"n": 0, "quit": None}
@@ -442,7 +532,7 @@ class ThreadedRun(Run):
                    "hub": [self.tid(t) for t in hub._tasks], "subs": self.subs, "overlap": self.overlap,
                    "run_exc": run_exc if run_exc else ("deadlock" if status == "deadlock" else None),
                    "descheduled": text.count("de-scheduled"), "excs": excs, "status": status, "steps": ctl.steps,
-                   "queued_run": self.queued_run}
+                   "queued_run": self.queued_run, "overslept": None, "cb_bad": self.cb_bad, "cbcancel": self.cbcancel}
             if status == "deadlock": obs["crashed"] = True
         finally:
             redir.close()
@@ -462,6 +552,12 @@ def mk(progs, tasks, timers=(), r=(), w=(), x=(), send=(), recv=(), t0=T0, budge
     return {"t0": t0, "budget": budget, "progs": progs, "tasks": tasks, "timers": timers, "r": r, "w": w, "x": x, "send": send,
             "recv": recv, "label": label, "prios": list(prios), "draws": list(draws), "conv": conv}
 
+def wants_canary(case):
+    """one inline case in four is followed by the canary run (decided from the case alone, so that replays agree)"""
+    if case.get("kind") == "epoll" or case.get("mode") == "threaded": return False
+    return case.get("label") == "hidden state" or (case.get("conv", 0) + len(case["progs"]) + 3 * len(case["tasks"]) + len(case["timers"])) % 4 == 0
+
+
 NUM0, NUM4, BLOCK, SLEEP4, SLEEP0, EXIT = ["num", 0], ["num", 4], ["block"], ["sleep", 4], ["sleep", 0], ["exit"]
 SLEEPN = ["sleep", None]
 RAISE = ["raise", 1]
@@ -469,6 +565,9 @@ SEL_T = ["select", [], [], [], 4]                 # pure timeout
 SEL_R0 = ["select", [0], [], [], 12]              # fd 0 (readable from T0+6) with timeout
 SEL_R1 = ["select", [1], None, None, None]        # fd 1: never ready, no timeout -> blocks for ever
 SUBS = [[["num", 3]], [SLEEP4], [], [["raise", 2]], [SLEEP4, ["num", 5]]]
+BADOP = ["badop"]
+CANARY = mk([[SLEEP4, ["select", [0], [1], [], 12], ["again", 2, True], NUM0], [["select", [1], [], [], 4], ["recv", 0, 8]], [SLEEP0, ["num", 0]]],
+            [0, 1, 0], [[5, True, True, 1], [5, False, True, None]], r=[T0 + 6, None], w=[None, T0 + 6], x=[None, None], label="canary")
 
 
 def sub_table(base):
@@ -490,8 +589,9 @@ def rand_yield(rng, nsub_from, nprogs, ntimers, nfds, t0):
     if r < 0.49: return ["block"]
     if r < 0.66: return ["select", fl(), fl(), fl(), opt()]
     if r < 0.71: return ["recv", rng.randrange(nfds), opt()]
-    if r < 0.76: return ["send", rng.randrange(nfds), rng.choice([1, 3, 8, 10]), opt(), rng.choice([2, 4, 16])]
-    if r < 0.775: return ["exit"]
+    if r < 0.76: return ["send", rng.randrange(nfds), rng.choice([1, 3, 4, 8, 10, 16]), opt(), rng.choice([2, 4, 16])]
+    if r < 0.77: return ["exit"]
+    if r < 0.78: return ["badop"]
     if r < 0.82: return ["raise", rng.randint(1, 3)]
     if r < 0.95 and nsub_from < nprogs: return ["again", rng.randrange(nsub_from, nprogs), rng.random() < 0.7]
     if ntimers: return ["cancel", rng.randrange(ntimers)]
@@ -519,6 +619,8 @@ def rand_case(rng, ntasks=None, maxlen=12):
         c["prios"] = [rng.choice([0, 1, 2, 4, 6, 7]) if (lo or rng.random() < 0.5) else rng.choice([8, 8, 12]) for _ in range(ntop)]
         c["draws"] = [rng.choice([0, 1, 3, 5, 7, 8, 8, 8, 8]) for _ in range(rng.choice([0, 4, 12, 30]))]
     c["conv"] = rng.randrange(1, 1 << 20) if rng.random() < 0.8 else 0
+    if ntimers and rng.random() < 0.08:                           # callbacks that cancel a timer (possibly their own): judged by the oracle alone
+        c["cbacts"] = [[rng.randrange(ntimers), rng.choice([0, 0, 1, 2]), "cancel", rng.randrange(ntimers)] for _ in range(rng.choice([1, 1, 2]))]
     return c
 
 
@@ -575,6 +677,25 @@ def hand_cases():
     yield mk([[SLEEP4, ["cancel", 0], SLEEP4, ["cancel", 1]], [["sleep", 40]]], [0, 1], [[3, True, True, None], [9, False, False, 0]], label="cancel")
     yield mk([[["sleep", 0], ["sleepabs", 0], ["sleepabs", 5], ["num", 3]]], [0, 0], t0=0, label="clock at 0")
     yield mk([[NUM0] * 6], [0, 0], [[0, True, False, None]], budget=40, label="budget stops a timer that never ends")
+    # falsy results: 0, False, nothing, b"" - each must arrive as itself
+    P = [[["again", 1, True], ["again", 2, True], ["again", 3, True], ["again", 4, True], ["recv", 0, None], ["recv", 0, 4], NUM0],
+         [["num", 0]], [BLOCK], [], [SLEEP0, ["num", 0]]]
+    yield mk(P, [0, 0], r=[T0], recv=[0, 0, 0, 0], label="falsy results")
+    yield mk(P, [0], r=[T0], recv=[0], t0=0, label="falsy results, clock at 0", conv=7)
+    # several things due in one sweep of the hub
+    for cv in (0, 3, 11):
+        yield mk([[SLEEP4, SLEEP4, ["sleep", 8]], [["sleep", 8], ["sleepabs", T0 + 12]]], [0, 1, 0], [[4, True, True, 2], [4, True, False, None], [8, False, True, None]],
+                 label="equal deadlines: timers and sleepers", conv=cv, budget=60)
+        yield mk([[SLEEP4, ["cancel", 0], ["cancel", 1]], [NUM0, ["sleepabs", T0 + 4], ["cancel", 1], ["cancel", 0]]], [0, 1], [[4, True, True, None], [4, False, True, None]],
+                 label="cancel in the sweep in which the timer expires", conv=cv, budget=60)
+        yield mk([[["select", [0], [2], [], 0], ["select", [0], [2], [], 4], ["select", [1], [2], [0], 4]], [SLEEP4, ["select", [0], [], [], 0]]], [0, 1, 0],
+                 [[4, False, True, None]], r=[T0, T0 + 4], w=[None, None, T0 + 4], x=[T0 + 8], label="expired and ready in one sweep", conv=cv)
+        yield mk([[SLEEP4, BADOP, NUM0], [["again", 2, True], NUM0], [SLEEP0, BADOP]], [0, 1, 0], label="operation that raises", conv=cv)
+    # timer callbacks that cancel timers, their own included
+    for acts in ([[0, 0, "cancel", 0]], [[0, 1, "cancel", 1]], [[1, 0, "cancel", 0]], [[0, 0, "cancel", 1], [1, 0, "cancel", 0]], [[0, 2, "cancel", 0], [0, 2, "cancel", 1]]):
+        for tm in ([[4, True, True, None], [4, True, False, None]], [[4, True, False, 1], [6, False, True, None]]):
+            c = mk([[SLEEP4, ["sleep", 8], ["sleep", 40]]], [0], tm, label="callback cancels a timer", budget=80); c["cbacts"] = acts
+            yield c
 
 
 def epoll_case(rng):
@@ -632,7 +753,7 @@ def thr_hand_cases():
             mk([[["sleep", 4]], [["sleep", 8]], [["sleep", 12]]], [0, 1, 2], label="thr: distinct deadlines")]
     hc = list(hand_cases())
     keep = ("design spike D.5", "sub-task results", "uncaught sub-task exception", "two tasks select on one fd", "recv + partial sends",
-            "exit", "cancel", "clock at 0")
+            "exit", "cancel", "clock at 0", "equal deadlines: timers and sleepers", "falsy results", "operation that raises")
     base += [c for c in hc if c["label"] in keep]
     base.append(mk(sub_table([[["sleep", 8], RAISE], [["sleep", 8], NUM0, NUM0], [["again", 4, True], ["sleep", 8]]]), [0, 1, 2, 1],
                    [[8, False, True, None], [4, True, True, 2]], label="thr: raise, sub-task, timers"))
@@ -818,6 +939,8 @@ class C06(Check):
         import pox.lib.recoco.recoco as recoco
         self.rc = recoco
         self._last = (None, None)
+        self.canary_want = None
+        self.canary_diff()
         import ast
         rel = "pox/lib/recoco/recoco.py"
         tree = ast.parse(open(os.path.join(common.REPO, rel)).read())
@@ -847,6 +970,14 @@ class C06(Check):
                       [["select", [1, 0], [], [], 4], ["sleep", 0], ["send", 2, 3, None, 2], ["sleep", None]]]
         for cv in range(1, 41):                                                  # the same programs under 40 choices of calling conventions
             cases.append(mk(conv_progs, [0, 1, 0], [], FD_R, FD_W, FD_X, [2], [], T0, 200, "conventions", conv=cv))
+        two = [[4, True, True, None], [4, False, True, None]]                    # two timers due together, with sleepers due at the same times
+        for c in scope([SLEEP4, ["cancel", 0], ["sleepabs", T0 + 8]], 2, 2, timers=two, label="sweep: timers"): cases.append(c)      # 13^2
+        sweep = [["select", [0], [], [], 0], ["select", [0], [2], [], 4], SLEEP4, NUM0]       # fd 0 ready at once, fd 2 together with the timeouts
+        for i, c in enumerate(scope(sweep, 2, 2, timers=[], label="sweep: expired and ready")):                     # 21^2
+            c["r"], c["w"], c["conv"] = [T0, None, None], [None, None, T0 + 4], i % 3
+            cases.append(c)
+        for i, c in enumerate(scope([NUM0, SEL_R1, ["select", [1], [], [], 4]], 2, 1, label="hidden state")):       # each followed by the canary
+            for cv in (0, 9): d = dict(c); d["conv"] = cv; cases.append(d)
         # threaded select hub (forced thread scheduler)
         cases += list(thr_hand_cases())
         for i, c in enumerate(scope(TH_A, 3, 1, timers=[], label="thr-scope3x1")):      # 7^3
@@ -890,7 +1021,20 @@ class C06(Check):
             return {"j": json.dumps(run_epoll(case), separators=(",", ":"))}
         if case.get("mode") == "threaded":
             return {"j": json.dumps(ThreadedRun(self.rc, case).go(), separators=(",", ":"))}
-        return {"j": json.dumps(Run(self.rc, case).go(), separators=(",", ":"))}
+        o = Run(self.rc, case).go()
+        if wants_canary(case):                                      # hidden state: a fresh scheduler afterwards must behave like a fresh one
+            o["canary"] = self.canary_diff()
+        return {"j": json.dumps(o, separators=(",", ":"))}
+
+    def canary_diff(self):
+        got = Run(self.rc, CANARY).go()
+        if self.canary_want is None:
+            self.canary_want = got                                  # first use: recorded in setup(), before any other case has run
+            return None
+        for k in self.KEYS + ("subs", "descheduled", "excs"):
+            if got[k] != self.canary_want[k]:
+                return "%s is %s, in a fresh process %s" % (k, json.dumps(got[k])[:200], json.dumps(self.canary_want[k])[:200])
+        return None
 
     def _o(self, obs):
         if self._last[0] is not obs:
@@ -903,8 +1047,11 @@ class C06(Check):
         if case.get("kind") == "epoll": return None                 # plain differential test, no model counterpart
         if case.get("mode") == "threaded" and not schedule_independent(case):
             return None                                             # more than one legal outcome: the oracle alone judges
-        r = {k: v for k, v in case.items() if k not in ("label", "_iso", "mode", "sched", "conv")}
+        if case.get("cbacts"): return None                          # callbacks that act on timers are not modelled: the oracle alone judges
+        r = {k: v for k, v in case.items() if k not in ("label", "_iso", "mode", "sched", "conv", "cbacts")}
         r.setdefault("prios", []); r.setdefault("draws", [])
+        if any(y[0] == "badop" for p in r["progs"] for y in p):     # an operation whose execute() raises = the task is never scheduled again
+            r["progs"] = [[(["sleep", None] if y[0] == "badop" else y) for y in p] for p in r["progs"]]
         r.update(REPAIRED)
         return r
 
@@ -995,6 +1142,12 @@ def oracle(chk, case, o):
         return "overlap | a task step began while another was running"
     if o.get("queued_run"):
         return "run-while-queued | a task was executed while it was still in the ready deque"
+    if o.get("overslept"):
+        return "overslept | %s although everything was idle" % o["overslept"]
+    if o.get("cb_bad"):
+        return "timer:args | %s" % o["cb_bad"]
+    if o.get("canary"):
+        return "hidden-state | after this run a fresh scheduler no longer behaves like a fresh one: %s" % o["canary"]
     # 1. program order, each step once
     for tid, evs in steps.items():
         if tid not in tab: return "unknown-task | step of a task that was never created"
@@ -1087,7 +1240,7 @@ def oracle(chk, case, o):
             elif y[0] in ("num", "cancel"):
                 if r is not None and tab[tid][1] is None:
                     return "yield0:wrong-result | task %d resumed from %s with %s" % (tid, y, r)
-            elif y[0] in ("block", "exit") or y == ["sleep", None]:
+            elif y[0] in ("block", "exit", "badop") or y == ["sleep", None]:
                 return "resumed-from-block | task %d was resumed after %s" % (tid, y)
     # 5. timers
     for j, (delay, recurring, selfstop, false_at) in enumerate(case["timers"]):
@@ -1103,7 +1256,12 @@ def oracle(chk, case, o):
         cancels = [p for tid, evs in steps.items() for p, e in evs
                    if e[2] < len(tab[tid][0]) and tab[tid][0][e[2]] == ["cancel", j] and not (e[4] is not None and e[4][0] == "exc" and e[2] > 0
                         and tab[tid][0][e[2] - 1][0] == "again" and not tab[tid][0][e[2] - 1][2])]
-        if cancels and fires and fires[-1][0] > min(cancels): return "timer:after-cancel | timer %d fired after cancel()" % j
+        cancels += [p for p, k in o.get("cbcancel", ()) if k == j]
+        if cancels and fires and fires[-1][0] >= min(cancels): return "timer:after-cancel | timer %d fired after cancel()" % j
+        targeted = any(y == ["cancel", j] for p in case["progs"] for y in p) or any(a[3] == j for a in case.get("cbacts", ()))
+        stopped = selfstop and false_at is not None and len(fires) > false_at
+        if recurring and not targeted and not stopped and tt not in o["ready"] + o["hub"] + o["incoming"]:
+            return "timer:stopped-early | recurring timer %d is no longer scheduled after %d firings" % (j, len(fires))
     # 6. round-robin fairness of the ready deque (inline hub: nothing can overtake a task that yielded 0, except sub-task call/return)
     for tid, evs in steps.items():
         prog = tab[tid][0]
@@ -1133,7 +1291,7 @@ def oracle(chk, case, o):
             if i == len(prog): continue
             if i > 0 and prog[i - 1][0] == "again" and not prog[i - 1][2] and last[4] is not None and last[4][0] == "exc": continue
             y = prog[i]
-            may_block = (y[0] in ("block", "raise", "exit") or y == ["sleep", None]
+            may_block = (y[0] in ("block", "raise", "exit", "badop") or y == ["sleep", None]
                          or (y[0] == "select" and y[4] is None and never(y[1], "r") and never(y[2], "w") and never(y[3], "x"))
                          or (y[0] == "recv" and y[2] is None and never([y[1]], "r") and never([y[1]], "x"))
                          or (y[0] == "send" and y[3] is None and never([y[1]], "w") and never([y[1]], "x"))
@@ -1143,7 +1301,7 @@ def oracle(chk, case, o):
                 return "lost-wakeup:%s | task %d is still waiting on %s although nothing else can happen" % (y[0], tid, y)
         for j, (delay, recurring, selfstop, false_at) in enumerate(case["timers"]):
             fired = sum(1 for e in trace if e[0] == "f" and e[1] == ntop + j)
-            cancelled = any(y == ["cancel", j] for p in case["progs"] for y in p)
+            cancelled = any(y == ["cancel", j] for p in case["progs"] for y in p) or any(a[3] == j for a in case.get("cbacts", ()))
             if not cancelled and fired == 0: return "timer:never | timer %d never fired" % j
     # 8. isolation: replacing a top-level `raise` by `yield False` must not change anybody's trace
     raised = [(tid, e[2]) for tid, evs in steps.items() if tab[tid][1] is None for _, e in evs
